@@ -404,6 +404,110 @@ def dispersion_rule(repo, rep):
                 '; the two forms agree to 1e-9 at eight points of the atmosphere box' if agree else ''))
 
 
+def params_rules(repo, rep):
+    """first_vel_params: C = (n_REF - 1) 1e6 with the manufacturer's reference index when one is handed in - for EVERY combination of the other
+    optional arguments (a full data sheet carries nominal unit length and frequency as well) - and n_REF = c / (2 U f) only when none is;
+    D = 273.15/1013.25 (287.6155 + 4.8866/lambda^2 + 0.068/lambda^4)"""
+    f = repo.func('geodepy.survey', 'first_vel_params')
+    rep.analysed(f)
+    w = where(f, f.node)
+    sy = lambda n: Rat.sym(n)
+    ps = [p.name for p in f.params]
+    base = 'R-FORMULA::geodepy/survey.py::first_vel_params::'
+    if len(ps) < 4:
+        rep.undecided('R-FORMULA', base + 'signature', w, 'first_vel_params does not take (wavelength, frequency, n_REF, unit_length)')
+        return
+    d_ref = C(F(27315, 100)) / C(F(101325, 100)) * (C(F(2876155, 10000)) + C(F(48866, 10000)) / (sy('wl') * sy('wl')) + C(F(68, 1000)) / (sy('wl') * sy('wl') * sy('wl') * sy('wl')))
+    c_given = (sy('n') - C(1)) * C(10 ** 6)
+    c_derived = (C(299792458) / (C(2) * sy('u') * sy('fr')) - C(1)) * C(10 ** 6)
+    nt = alg.opaque('truthy', (sy('n'),))
+    cases = (('n_REF given, unit length and frequency given too', {ps[1]: sy('fr'), ps[2]: sy('n'), ps[3]: sy('u')}, c_given),
+             ('n_REF given, frequency only', {ps[1]: sy('fr'), ps[2]: sy('n'), ps[3]: NONE}, c_given),
+             ('n_REF given alone', {ps[1]: NONE, ps[2]: sy('n'), ps[3]: NONE}, c_given),
+             ('n_REF absent: derived from unit length and frequency', {ps[1]: sy('fr'), ps[2]: NONE, ps[3]: sy('u')}, c_derived))
+    for k, (txt, args, want_c) in enumerate(cases):
+        ev = Evaluator(repo)
+        a = {ps[0]: sy('wl')}
+        a.update(args)
+        try:
+            got = ev.call_function(f, a)
+        except AnalysisError as e:
+            rep.undecided('R-FORMULA', base + 'C[%d]' % k, w, '%s: not evaluated (%s)' % (txt, e))
+            continue
+        if not (isinstance(got, Tup) and len(got.items) == 2 and all(isinstance(x, Rat) for x in got.items)):
+            rep.undecided('R-FORMULA', base + 'C[%d]' % k, w, '%s: the result is not a pair of numbers' % txt)
+            continue
+        c_got = got.items[0]
+        # a supplied reference index and the nominal data next to it are non-zero numbers: their truth tests are true
+        for nm in ('n', 'u', 'fr'):
+            tr = alg.opaque('truthy', (sy(nm),))
+            c_got = alg.assume(c_got, alg.opaque('not', (tr,)), False)
+            c_got = alg.assume(c_got, tr, True)
+        check_equal(rep, 'R-FORMULA', base + 'C[%d]' % k, w, c_got, want_c, 'C = (n_REF - 1) 1e6 - %s' % txt)
+        if k == 0:
+            check_equal(rep, 'R-FORMULA', base + 'D', w, got.items[1], d_ref, 'D = 273.15/1013.25 (287.6155 + 4.8866/lambda^2 + 0.068/lambda^4)')
+    # the two refractivity routines are one interface: same parameters, same defaults (a caller who omits the CO2 content must get the same
+    # air from both, otherwise N_g - N_p is not the dispersion term)
+    fp = repo.func('geodepy.survey', 'phase_refractivity')
+    fg = repo.func('geodepy.survey', 'group_refractivity')
+    key = 'R-SIBLING::geodepy/survey.py::group_refractivity::defaults'
+    pp = [(p.name, stmt_text(p.default) if p.default is not None else None) for p in fp.params]
+    pg = [(p.name, stmt_text(p.default) if p.default is not None else None) for p in fg.params]
+    if len(pp) != len(pg):
+        rep.violated('R-SIBLING', key, where(fg, fg.node), 'phase_refractivity takes %d parameters, group_refractivity %d' % (len(pp), len(pg)), expected=str(pp), actual=str(pg))
+    else:
+        diff_ = [(a, b) for a, b in zip(pp, pg) if a[1] != b[1] and not (a[1] is not None and b[1] is not None and _same_number(a[1], b[1]))]
+        if diff_:
+            a, b = diff_[0]
+            rep.violated('R-SIBLING', key, where(fp, fp.node), 'phase_refractivity defaults %s to %s, group_refractivity defaults %s to %s: with the argument omitted the two refractivities '
+                         'are computed for different air, and N_g differs from N_p + sigma dN_p/dsigma by the CO2 term' % (a[0], a[1], b[0], b[1]),
+                         expected='%s=%s in both' % (b[0], b[1]), actual='%s=%s / %s=%s' % (a[0], a[1], b[0], b[1]))
+        else:
+            rep.holds('R-SIBLING', key, where(fg, fg.node), 'the two refractivity routines take the same %d parameters with the same defaults (%s)' % (
+                len(pp), ', '.join('%s=%s' % x for x in pp if x[1] is not None) or 'none'))
+
+
+def _same_number(a, b):
+    try:
+        return F(a) == F(b)
+    except (ValueError, ZeroDivisionError):
+        return False
+
+
+def humidity_rules(repo, rep):
+    """the vapour pressure is linear in the relative humidity over the whole range 0..100 %: PV = H/100 * saturation pressure(T).  A helper that
+    re-reads part of the range in another unit (a fraction below 1) is not: decided as d^2 PV / dH^2 = 0 and no branch on H"""
+    f = repo.func('geodepy.survey', 'humidity2part_water_vapour_press')
+    rep.analysed(f)
+    w = where(f, f.node)
+    key = 'R-FORMULA::geodepy/survey.py::humidity2part_water_vapour_press::linear-in-humidity'
+    ev = Evaluator(repo)
+    ps = [p.name for p in f.params]
+    got = ev.call_function(f, {ps[0]: Rat.sym('rh'), ps[1]: Rat.sym('tc')})
+    if not isinstance(got, Rat):
+        rep.undecided('R-FORMULA', key, w, 'the vapour pressure does not evaluate to a number')
+        return
+    h = alg.TABLE.sym('rh')
+    branches = [a for a in got.atoms(deep=True) if alg.TABLE.atoms[a].kind == 'fn' and alg.TABLE.atoms[a].name == 'ite'
+                and isinstance(alg.TABLE.atoms[a].args[0], Rat) and h.id in alg.TABLE.atoms[a].args[0].atoms(deep=True)]
+    if branches:
+        c0 = alg.TABLE.atoms[branches[0]].args[0]
+        rep.violated('R-FORMULA', key, w, 'the vapour pressure depends on a case distinction on the humidity itself (%s): part of the range 0..100 %% is read in another unit, so '
+                     'the pressure is not H/100 times the saturation pressure there (a reading of 1 %% gives the vapour pressure of saturated air)' % show(c0, 2, 80),
+                     expected='PV = H/100 * e_s(T) for every H in [0, 100]', actual=show(got, 2, 160))
+        return
+    try:
+        d2 = alg.diff(alg.diff(got, h.id), h.id)
+        at0 = alg.subst(got, {h.id: C(0)})
+    except Exception as e:
+        rep.undecided('R-FORMULA', key, w, 'not differentiable in the humidity: %s' % e)
+        return
+    if alg.decide_equal(d2, C(0)) == 'equal' and alg.decide_equal(at0, C(0)) == 'equal':
+        rep.holds('R-FORMULA', key, w, 'PV is proportional to the relative humidity (second derivative zero, PV(0) = 0): one unit over the whole range 0..100 %')
+    else:
+        rep.violated('R-FORMULA', key, w, 'the vapour pressure is not proportional to the relative humidity', expected='PV = H/100 * e_s(T)', actual=show(got, 2, 160))
+
+
 def run(repo, rep):
     alg.reset()
     common.typecheck_rules(repo, rep)
@@ -413,6 +517,8 @@ def run(repo, rep):
     optnum(repo, rep)
     plane_rules(repo, rep, orc)
     fvc_rules(repo, rep, orc)
+    params_rules(repo, rep)
+    humidity_rules(repo, rep)
     dispersion_rule(repo, rep)
     # every local is assigned on all paths to its uses: a branch chain without its closing case (wet_temp > 0 / wet_temp < 0 and nothing for
     # exactly 0 - a temperature the property names) leaves the variable unbound
